@@ -1,6 +1,6 @@
 //! spec -> impl: execute cases / behaviours emitted by TLC.
 use serde_json::Value;
-use sos_verif_harness::{account_world, files_world, codec_world, crash_world, crypto_world, leak_world, server_world, upload_world, eventlog_world, sync_world, summary::Summary, tree_world};
+use sos_verif_harness::{account_world, files_world, codec_world, crash_world, crypto_world, leak_world, server_world, srvmerge_world, upload_world, eventlog_world, sync_world, summary::Summary, tree_world};
 use std::io::BufRead;
 
 fn read_lines(path: &str) -> Vec<Value> {
@@ -224,6 +224,26 @@ fn main() {
             rt.block_on(async {
                 for (i, c) in cases.iter().enumerate() {
                     if let Err(e) = files_world::run_case(first + i, c, &scratch, &mut out).await {
+                        eprintln!("harness error: {e:?}");
+                        std::process::exit(3);
+                    }
+                }
+            });
+        }
+        "srvmerge" => {
+            // replay srvmerge <paths.ndjson> <scratch> <fs|db>
+            let scratch = std::path::PathBuf::from(&args[3]);
+            sos_verif_harness::init_audit(&scratch);
+            let paths = read_lines(&args[2]);
+            let backend = args.get(4).cloned().unwrap_or_else(|| "fs".to_string());
+            let rt = tokio::runtime::Builder::new_multi_thread()
+                .worker_threads(2)
+                .enable_all()
+                .build()
+                .unwrap();
+            rt.block_on(async {
+                for p in &paths {
+                    if let Err(e) = srvmerge_world::run_path(p, &scratch, &mut out, &backend).await {
                         eprintln!("harness error: {e:?}");
                         std::process::exit(3);
                     }
